@@ -1,11 +1,12 @@
 from __future__ import annotations
 
+from itertools import combinations
 from typing import TYPE_CHECKING, cast
 
 import numpy as np
 import numpy.typing as npt
 
-from geometer.base import EQ_TOL_ABS, EQ_TOL_REL, LeviCivitaTensor, TensorDiagram
+from geometer.base import EQ_TOL_ABS, EQ_TOL_REL
 from geometer.curve import absolute_conic
 from geometer.exceptions import NotCollinear, NotConcurrent
 from geometer.point import (
@@ -459,13 +460,13 @@ def is_coplanar(*args: PointTensor | LineTensor, tol: float = EQ_TOL_ABS) -> npt
     result = np.isclose(det(np.stack([a.array for a in args[:n]], axis=-2)), 0, atol=tol)
     if not np.any(result) or len(args) == n:
         return result
-    covariant = args[0].tensor_shape[1] > 0
-    e = LeviCivitaTensor(n, covariant=covariant)
-    diagram = TensorDiagram(*[(e, a) if covariant else (a, e) for a in args[: n - 1]])
-    tensor = diagram.calculate()
-    for t in args[n:]:
-        x = t * tensor if covariant else tensor * t
-        result &= np.isclose(x.array, 0, atol=tol)
+    # more than n arguments: the coordinate matrix has rank < n if and only if all of its maximal minors vanish
+    # (testing the other arguments against the join of the first n - 1 is wrong when those are dependent themselves)
+    for ind in combinations(range(len(args)), n):
+        if ind[-1] < n:
+            continue
+        arrays = np.broadcast_arrays(*[args[i].array for i in ind])
+        result = result & np.isclose(det(np.stack(arrays, axis=-2)), 0, atol=tol)
         if not np.any(result):
             break
     return result
